@@ -719,16 +719,23 @@ func startWatchdog() {
 					continue
 				}
 				stuck++
-				if stuck < 6 {
+				if stuck < 10 {
 					continue
 				}
-				// no progress for 600ms of real time inside a scenario: a goroutine
-				// is blocked on a sync.Mutex (not durably blocked), so the bubble
-				// can never become idle.
+				// no progress for 1s of real time inside a scenario: if a goroutine is
+				// blocked on a sync.Mutex (not durably blocked) the bubble can never
+				// become idle. A loaded machine can also stall a step for that long:
+				// the wedge is reported only when the dump shows a mutex waiter and no
+				// goroutine besides this one that is running or runnable (otherwise
+				// keep waiting, for at most 120 s).
 				buf := make([]byte, 4<<20)
 				n := runtime.Stack(buf, true)
 				dump := string(buf[:n])
 				lockWaiters := strings.Count(dump, "sync.(*Mutex).Lock")
+				busy := strings.Count(dump, "[running") + strings.Count(dump, "[runnable") - 1
+				if (lockWaiters == 0 || busy > 0) && stuck < 1200 {
+					continue
+				}
 				wd.mu.Lock()
 				pending := wd.pendFn()
 				rec := Rec{Idx: wd.idx, Kind: wd.kind + "-wedged", Desc: wd.desc,
